@@ -72,6 +72,11 @@ func (s logonState) Timeout(session *session, e internal.Event) (nextState sessi
 	case internal.LogonTimeout:
 		session.log.OnEvent("Timed out waiting for logon response")
 		return latentState{}
+	case internal.NeedHeartbeat:
+		// Our Logon armed the heartbeat timer and the answer is taking longer than one interval.
+		// Nothing is sent while waiting, but the timer is kept running: it is armed by sends only,
+		// and left expired no Heartbeat would be sent after the session has been established.
+		session.stateTimer.Reset(session.HeartBtInt)
 	}
 	return s
 }
